@@ -138,6 +138,20 @@ def main(tier):
             else:
                 run.nontriv(("act2", src))
                 run.count("acting-stream.calls", len(calls))
+        # ---------- (2c) a handler that fails (error / nil result): the evaluation ends in an error, in every operand position
+        failing = [(tpl.replace("{T}", f"E{r.randint(0, 99)}"), tpl, kind) for tpl in ctx_templates for kind in ("reerr", "renil")]
+        outf = go_child(line_timeout=20).run([f"custom -,L30000 {1:032x} {kind}:{hx(pat)} {hx(src)}" for src, tpl, kind in failing])
+        for (src, tpl, kind), o in zip(failing, outf):
+            run.evaluations += 1
+            run.count("failing-handler.cases")
+            m = re.search(r" calls=(\S+)", o)
+            ncalls = len(unhx(m.group(1)).decode("utf-8", "replace").split("\x1e")) if m and m.group(1) != "-" else 0
+            if o.startswith("died") or o.startswith("panic"):
+                run.violation("failing-handler-crashes-the-vm", {"source": src, "handler": kind, "implementation": o[:400]})
+            elif o.startswith("ok ") and ncalls > 0:
+                run.violation("failing-handler-yields-a-value", {"source": src, "handler": kind, "implementation": o[:400]})
+            else:
+                run.nontriv(("failh", src, kind))
         # ---------- (3) the returned value is used by copy: a handler that reuses and mutates one result object
         shared = [("E1+E1", "i3", "1[E1=E1]+2[E1=E1]"), ("[E1,E1,E1]", "[i1 i2 i3]", None), ("x=E1; y=E1; x*10+y", "i12", None), ("E1; E1", "i2", None),
                   ("&cv=E1; cv*100+cv", "i102", None)]
